@@ -612,9 +612,10 @@ func init() {
 			js = append(js, mk(sprintf("c17.striped.par.pre%d", p), lossyPkg, "ZZ_C17_StripedPar", map[string]int{"maxlen": 4, "pre": p},
 				func(b *Bounds) { b.Unwind = 20; b.Preempt = pre; b.Race = true; b.MaxPaths = 2000000; b.MaxWallS = 1500 }))
 		}
+		// (four producers with three pre-emptions did not finish in 25 minutes)
 		gp, gn := 2, 3
 		if tier == "thorough" {
-			gp, gn = 3, 4
+			gp, gn = 3, 3
 		}
 		js = append(js, mk(sprintf("c17.striped.grow.producers%d.pre%d", gn, gp), lossyPkg, "ZZ_C17_StripedGrow", map[string]int{"producers": gn},
 			func(b *Bounds) { b.Unwind = 20; b.Preempt = gp; b.Race = true; b.MaxPaths = 20000000; b.MaxWallS = 3000 }))
@@ -761,10 +762,7 @@ func init() {
 			js = append(js, mk(sprintf("c09.mode%d.pre%d", mode, pre), rootPkg, "ZZ_C09_LoadVsWrite", map[string]int{"mode": mode, "canary": 0},
 				func(b *Bounds) { b.Unwind = 60; b.Preempt = pre; b.Race = true; b.MaxPaths = 6000000; b.MaxWallS = 2400 }))
 		}
-		xp := 2
-		if tier == "thorough" {
-			xp = 3
-		}
+		xp := 2 // both tiers: bound 3 is about thirty times the 100 000 schedules of bound 2
 		js = append(js, mk(sprintf("c09.reload_vs_expired_invalidation.pre%d", xp), rootPkg, "ZZ_C09_ReloadVsExpiredInvalidation", nil,
 			func(b *Bounds) { b.Unwind = 140; b.Preempt = xp; b.Race = true; b.MaxPaths = 6000000; b.MaxWallS = 2400 }))
 		c := mk("c09.canary", rootPkg, "ZZ_C09_LoadVsWrite", map[string]int{"mode": 0, "canary": 1}, func(b *Bounds) { b.Unwind = 60; b.Preempt = 1; b.Race = true })
